@@ -21,12 +21,17 @@ DEFAULTS = {
 }
 
 
+CREATED = []
+
+
 class FakeKernelSocket(_RealSocket):
     """Subclass of socket.socket (so isinstance checks pass) that never touches the OS."""
     log = None  # set per instance
 
     def __init__(self, family=None, type=None, proto=None, *a, **kw):
         self.ctor = (family, type, proto)
+        CREATED.append(self)
+        del CREATED[:-4]            # the harness asks for the one the wrapper has just created, without looking into the wrapper
         self.log = []
         self.store = dict(DEFAULTS)
         self.bound_to = None
